@@ -272,7 +272,7 @@ var o8Except = map[string]string{
 	"tensor.(*Dense).setOldAP": "ownership hand-over helper: callers are checked (their argument must be a fresh AP)",
 }
 
-func O8(rc *RC) { O8f(rc, nil, 3) }
+func O8(rc *RC) { O8f(rc, nil, 2) } // floor: the alias loads that exist on the reviewed tree (ShallowClone stopped being one when finding 33 was fixed)
 
 // O8f restricts the report to functions selected by only.
 func O8f(rc *RC, only func(fnKey string) bool, floor int) {
